@@ -66,6 +66,15 @@ class DeblendMachine(Machine):
                         'contrast': rng.pick([0.0, 1e-3, 0.05]),
                         'entry': 'deblend', 'label_subset': False,
                         'nsched': 2})
+        elif rng.chance(0.012):
+            # a regular grid of equal peaks on one pedestal: one parent with
+            # more than 255 children (no limit applies in linear mode, and
+            # the other modes fall back to it)
+            cfg.update({'carpet': 'grid', 'npixels': 1, 'nlevels': 32,
+                        'mode': rng.pick(['linear', 'linear', 'sinh']),
+                        'contrast': rng.pick([0.0, 1e-3]),
+                        'entry': 'deblend', 'label_subset': False,
+                        'label_gaps': rng.chance(0.3), 'nsched': 2})
         if self.fault_tier and rng.chance(0.35):
             # task_error: detect with 8-connectivity, deblend with 4
             cfg['det_connectivity'] = 8
@@ -78,7 +87,22 @@ class DeblendMachine(Machine):
         sc = scenes.blend_scene(rng)
         data = sc['data']
         thr = rng.pick([1.0, 2.0, 4.0]) * max(sc['noise'], 0.5) + sc['offset']
-        if cfg.get('carpet'):
+        if cfg.get('carpet') == 'grid':
+            n = rng.pick([72, 76])
+            g = rng.np()
+            data = np.zeros((n + 14, n))
+            data[:n] = 20.0
+            pk = [(float(x), float(y), 200.0 * (1 + 0.02 * g.random()),
+                   0.8, 0.8, 0.0)
+                  for y in range(4, n - 3, 4) for x in range(4, n - 3, 4)]
+            data[:n] += scenes.gaussians((n, n), pk)
+            # a second, ordinary blend below a gutter of empty rows
+            data[n + 2:] += scenes.gaussians((12, n), [
+                (n / 2 - 3.0, 6.0, 80.0, 1.6, 1.6, 0.0),
+                (n / 2 + 3.5, 6.0, 60.0, 1.6, 1.6, 0.0)])
+            thr = 5.0
+            sc = {'data': data, 'noise': 1.0, 'offset': 0.0}
+        elif cfg.get('carpet'):
             # one bright core on a carpet of faint bumps covering the whole
             # frame: hundreds of markers at the low exponential thresholds
             # (the 'nmarkers' fallback to linear spacing), none or few at
@@ -278,9 +302,9 @@ class DeblendMachine(Machine):
                          'input_labels': np.asarray(v['input_labels'])}
                      for k, v in info.get('warnings', {}).items()}
         return {
-            'data': out.data,
-            'labels': out.labels,
-            'deblended_labels': out.deblended_labels,
+            'data': out.data.copy(),
+            'labels': np.array(out.labels),
+            'deblended_labels': np.array(out.deblended_labels),
             'inverse_map': {int(k): np.asarray(v) for k, v in
                             out.deblended_labels_inverse_map.items()},
             'map': {int(k): int(v) for k, v in
@@ -294,6 +318,19 @@ class DeblendMachine(Machine):
         if st.entry == 'deblend':
             if self._segm_digest(st.segm) != st.segm_digest0:
                 raise Violation('input_modified', 'segment_img', where)
+            # ... and it still reports what its (unchanged) array says
+            arr = st.in_arr
+            labs = _labels_of(arr)
+            got = call(lambda: (np.asarray(st.segm.labels),
+                                np.asarray(st.segm.areas)))
+            exp = (np.asarray(labs), np.array(
+                [np.count_nonzero(arr == l) for l in labs], dtype=int))
+            if isinstance(got, Raised) or \
+                    not np.array_equal(got[0], exp[0]) or \
+                    not np.array_equal(got[1], exp[1]):
+                raise Violation('input_modified', 'segment_img_attributes',
+                                f'{where}: labels/areas of the input image '
+                                f'are {got!r}, its array says {exp!r}')
 
     def step(self, st, op):
         if op['op'] == 'serial':
@@ -368,6 +405,20 @@ class DeblendMachine(Machine):
             in_arr = st.in_arr
             labels_sel = st.labels
         self._refinement(st, in_arr, labels_sel, st.serial, out)
+        if st.entry == 'deblend':
+            # the caller goes on working with the result (a label
+            # operation and an in-place clean-up): the input stays what it
+            # was.  The observation above holds copies.
+            call(lambda: out.data.__setitem__(Ellipsis, 0))
+            self._check_inputs(st, 'after the caller cleared the result '
+                               'array in place')
+            labs = np.array(st.serial['labels'])
+            if len(labs):
+                call(lambda: setattr(out, 'data', st.serial['data'].copy()))
+                call(out.remove_label, int(labs[0]))
+                self._check_inputs(st, 'after a label operation on the '
+                                   'result')
+            st.stats.probe('result_edited_input_checked')
 
     def _refinement(self, st, in_arr, labels_sel, obs, out):
         c = st.cfg
